@@ -601,6 +601,10 @@ func (fc *FnCtx) loopHead(li *loopInfo, in *State, inReach Term) {
 			fc.dropped[inv] = true
 			continue
 		}
+		if fc.clauseNotAssumed("inv-init", fmt.Sprintf("loop %d invariant holds on entry: %s", li.ordinal, inv.Text), inv.Label) ||
+			fc.clauseNotAssumed("inv-pres", fmt.Sprintf("loop %d invariant preserved: %s", li.ordinal, inv.Text), inv.Label) {
+			continue // an invariant that is not claimed is not available at the loop head either
+		}
 		fc.assume(t)
 	}
 	fc.canary("loop"+strconv.Itoa(li.ordinal), "false", fmt.Sprintf("invariants of loop %d are satisfiable", li.ordinal))
@@ -696,6 +700,9 @@ func (fc *FnCtx) obligeSplit(b *ssa.BasicBlock, kind string, goal Term, text str
 		}
 	}
 	fc.reach = saveR
+	if fc.clauseNotAssumed(kind, text, label) {
+		return
+	}
 	fc.assume(goal)
 }
 
